@@ -87,6 +87,7 @@ type Frame struct {
 	entryPtr   *State
 	privStruct map[ssa.Value]string
 	privAlias  map[ssa.Value]string
+	idx        map[ssa.Value]bool
 }
 
 type deferRec struct {
@@ -358,14 +359,17 @@ func (f *Frame) val(v ssa.Value) Term {
 		return intLit(0)
 	}
 	f.e.fail("%s: no value for %s (%T)", f.fn.Name(), v.Name(), v)
-	t := f.e.declare(f.name(v)+".undef", f.e.sortOf(v.Type()))
+	t := f.e.declare(f.name(v)+".undef", f.sortFor(v))
 	f.vals[v] = t
 	return t
 }
 
 func (f *Frame) setVal(v ssa.Value, t Term) Term {
 	if t.Sort == "" {
-		t.Sort = f.e.sortOf(v.Type())
+		t.Sort = f.sortFor(v)
+	}
+	if want := f.sortFor(v); t.Sort != want && (t.Sort == SInt || t.Sort == SBV) && (want == SInt || want == SBV) {
+		t = f.coerceSort(t, want, v.Type())
 	}
 	d := f.e.define(f.name(v), t)
 	f.vals[v] = d
@@ -374,7 +378,7 @@ func (f *Frame) setVal(v ssa.Value, t Term) Term {
 
 // freshFor declares an unconstrained constant for v and adds type facts.
 func (f *Frame) freshFor(v ssa.Value, st *State) Term {
-	t := f.e.declare(f.name(v), f.e.sortOf(v.Type()))
+	t := f.e.declare(f.name(v), f.sortFor(v))
 	f.vals[v] = t
 	f.typeFacts(t, v.Type(), st)
 	return t
@@ -853,6 +857,20 @@ func (f *Frame) binop(op token.Token, a, b Term, xt, rt types.Type, c *cursor, i
 			return app(SInt, fn, a, b)
 		}
 	case SBV:
+		if b.Sort == SInt && (op == token.SHL || op == token.SHR) {
+			if _, isLit := litInt(b); !isLit {
+				// shift by a mathematical count: the fault condition is exact, the value is abstract
+				if !isUnsigned(in.(*ssa.BinOp).Y.Type()) {
+					f.guard(c, "shift", in, ge(b, intLit(0)))
+				}
+				fn := "bv.shl.int"
+				if op == token.SHR {
+					fn = "bv.shr.int"
+				}
+				e.U.declareFun(fn, []Sort{SBV, SInt}, SBV)
+				return app(SBV, fn, a, b)
+			}
+		}
 		if b.Sort == SInt {
 			b = f.intToBV(b)
 		}
@@ -945,10 +963,81 @@ func (f *Frame) intToBV(t Term) Term {
 			return bvLit(uint64(-n))
 		}
 	}
+	// (ite c a b) with convertible branches
+	if strings.HasPrefix(t.S, "(ite ") {
+		if parts := splitSexpr(t.S[5 : len(t.S)-1]); len(parts) == 3 {
+			a := f.intToBV(Term{parts[1], SInt})
+			b := f.intToBV(Term{parts[2], SInt})
+			if !strings.Contains(a.S, "int2bv") && !strings.Contains(b.S, "int2bv") {
+				return Term{"(ite " + parts[0] + " " + a.S + " " + b.S + ")", SBV}
+			}
+		}
+	}
 	return mk(SBV, "(_ int2bv 64)", t)
 }
 
+// splitSexpr splits the top-level items of a space-separated s-expression list.
+func splitSexpr(s string) []string {
+	var out []string
+	depth, start := 0, -1
+	for i := 0; i < len(s); i++ {
+		c := s[i]
+		switch {
+		case c == '(':
+			if depth == 0 && start < 0 {
+				start = i
+			}
+			depth++
+		case c == ')':
+			depth--
+			if depth == 0 {
+				out = append(out, s[start:i+1])
+				start = -1
+			}
+		case c == ' ' || c == '\n':
+			if depth == 0 && start >= 0 {
+				out = append(out, s[start:i])
+				start = -1
+			}
+		default:
+			if depth == 0 && start < 0 {
+				start = i
+			}
+		}
+	}
+	if start >= 0 {
+		out = append(out, s[start:])
+	}
+	return out
+}
+
+func (f *Frame) coerceSort(t Term, want Sort, typ types.Type) Term {
+	if t.Sort == want {
+		return t
+	}
+	if want == SBV {
+		return f.intToBV(t)
+	}
+	return f.bvToInt(t, isUnsigned(typ))
+}
+
+func bvLitValue(t Term) (uint64, bool) {
+	if strings.HasPrefix(t.S, "#x") && len(t.S) == 18 {
+		var v uint64
+		if _, err := fmt.Sscanf(t.S[2:], "%x", &v); err == nil {
+			return v, true
+		}
+	}
+	return 0, false
+}
+
 func (f *Frame) bvToInt(t Term, unsigned bool) Term {
+	if v, ok := bvLitValue(t); ok {
+		if unsigned || v < 1<<63 {
+			return Term{fmt.Sprintf("%d", v), SInt}
+		}
+		return intLit(int64(v))
+	}
 	nat := mk(SInt, "bv2nat", t)
 	if unsigned {
 		return nat
@@ -1293,4 +1382,142 @@ func freeVarWrites(fn *ssa.Function, seen map[*ssa.Function]bool) map[*ssa.FreeV
 		}
 	}
 	return out
+}
+
+// ---- hybrid integer representation in mode bv64 ----
+//
+// In a bv64 function, integers that take part in indexing (indices, lengths,
+// slice bounds, small character types) stay mathematical Ints; the others -
+// the arithmetic values the function computes - are 64-bit vectors.  No
+// int2bv bridge is needed as long as the two kinds do not mix.
+
+func (f *Frame) sortFor(v ssa.Value) Sort {
+	e := f.e
+	t := v.Type()
+	if !e.bv || isFlagType(t) {
+		return e.sortOf(t)
+	}
+	b, ok := t.Underlying().(*types.Basic)
+	if !ok || b.Info()&types.IsInteger == 0 {
+		return e.sortOf(t)
+	}
+	if intBits(t) < 64 || f.idxLike()[v] {
+		return SInt
+	}
+	return SBV
+}
+
+func isIntType(t types.Type) bool {
+	b, ok := t.Underlying().(*types.Basic)
+	return ok && b.Info()&types.IsInteger != 0 && !isFlagType(t)
+}
+
+func (f *Frame) idxLike() map[ssa.Value]bool {
+	if f.idx != nil {
+		return f.idx
+	}
+	m := map[ssa.Value]bool{}
+	f.idx = m
+	mark := func(v ssa.Value) bool {
+		if v == nil || !isIntType(v.Type()) {
+			return false
+		}
+		if _, isC := v.(*ssa.Const); isC {
+			return false
+		}
+		if !m[v] {
+			m[v] = true
+			return true
+		}
+		return false
+	}
+	locInt := func(addr ssa.Value) bool {
+		switch a := addr.(type) {
+		case *ssa.FieldAddr:
+			st := a.X.Type().Underlying().(*types.Pointer).Elem()
+			return f.e.structFieldSort(st, a.Field) == SInt
+		case *ssa.IndexAddr:
+			return true
+		case *ssa.Alloc, *ssa.FreeVar, *ssa.Global:
+			return true
+		}
+		return true
+	}
+	for changed := true; changed; {
+		changed = false
+		for _, b := range f.fn.Blocks {
+			for _, in := range b.Instrs {
+				switch x := in.(type) {
+				case *ssa.IndexAddr:
+					changed = mark(x.Index) || changed
+				case *ssa.Index:
+					changed = mark(x.Index) || changed
+				case *ssa.Lookup:
+					if _, isMap := x.X.Type().Underlying().(*types.Map); !isMap {
+						changed = mark(x.Index) || changed
+					}
+				case *ssa.Slice:
+					changed = mark(x.Low) || changed
+					changed = mark(x.High) || changed
+					changed = mark(x.Max) || changed
+				case *ssa.MakeSlice:
+					changed = mark(x.Len) || changed
+					changed = mark(x.Cap) || changed
+				case *ssa.Call:
+					if bi, ok := x.Call.Value.(*ssa.Builtin); ok && (bi.Name() == "len" || bi.Name() == "cap" || bi.Name() == "copy") {
+						changed = mark(x) || changed
+					}
+				case *ssa.Extract:
+					if nx, ok := x.Tuple.(*ssa.Next); ok && x.Index == 1 {
+						_ = nx
+						changed = mark(x) || changed
+					}
+				case *ssa.UnOp:
+					if x.Op == token.MUL && isIntType(x.Type()) && locInt(x.X) {
+						changed = mark(x) || changed
+					} else if x.Op == token.SUB || x.Op == token.XOR {
+						if m[x] || m[x.X] {
+							changed = mark(x) || changed
+							changed = mark(x.X) || changed
+						}
+					}
+				case *ssa.Store:
+					if isIntType(x.Val.Type()) && locInt(x.Addr) {
+						changed = mark(x.Val) || changed
+					}
+				case *ssa.BinOp:
+					switch x.Op {
+					case token.ADD, token.SUB, token.MUL, token.QUO, token.REM:
+						if m[x] || m[x.X] || m[x.Y] {
+							changed = mark(x) || changed
+							changed = mark(x.X) || changed
+							changed = mark(x.Y) || changed
+						}
+					case token.EQL, token.NEQ, token.LSS, token.LEQ, token.GTR, token.GEQ:
+						if m[x.X] || m[x.Y] {
+							changed = mark(x.X) || changed
+							changed = mark(x.Y) || changed
+						}
+					}
+				case *ssa.Phi:
+					any := m[x]
+					for _, ed := range x.Edges {
+						any = any || m[ed]
+					}
+					if any {
+						changed = mark(x) || changed
+						for _, ed := range x.Edges {
+							changed = mark(ed) || changed
+						}
+					}
+				case *ssa.Convert:
+					if isIntType(x.Type()) && isIntType(x.X.Type()) && (m[x] || m[x.X] || intBits(x.X.Type()) < 64 || intBits(x.Type()) < 64) {
+						changed = mark(x) || changed
+						changed = mark(x.X) || changed
+					}
+				}
+			}
+		}
+	}
+	return m
 }
